@@ -124,6 +124,27 @@ fn history_shape(sc: &Scenario) -> u64 {
     for t in &sc.tail {
         s.push_str(&format!("{:?}", t));
     }
+    if let Some(w) = &sc.walk {
+        s.push_str(&format!("walk:{:?}", w.skip));
+    }
+    if let Some(c) = &sc.comp {
+        for p in &c.layout {
+            s.push_str(match p {
+                c26::Piece::Module(_) => "M",
+                c26::Piece::Custom(_) => "C",
+                c26::Piece::Nested(_) => "N",
+            });
+        }
+        for (k, sk) in &c.skip {
+            s.push_str(&format!("skip{k}:{};", sk.len()));
+        }
+        for (k, _, site, at) in &c.sites {
+            s.push_str(&format!("site{k}:{}:{at};", site.mode.name()));
+        }
+    }
+    if let Some(e) = &sc.exec {
+        s.push_str(&format!("calls{}:trap{:?}", e.calls.len(), e.trap_at.is_some()));
+    }
     rng::hash_str(&s)
 }
 
@@ -193,7 +214,9 @@ fn tally(st: &mut Stats, sc: &Scenario, res: &exec::RunResult, j: &Judged) {
         }
     }
     *st.schedulers.entry(sc.scheduler.clone()).or_default() += 1;
-    let mutating = res.ops_applied;
+    let mutating = res.ops_applied
+        + sc.comp.as_ref().map_or(0, |c| c.sites.len() + c.skip.len())
+        + sc.walk.as_ref().map_or(0, |w| 1 + w.skip.len());
     if mutating >= 2 || faulty {
         st.nontrivial += 1;
         st.shapes.insert(history_shape(sc));
